@@ -161,15 +161,23 @@ def strip_comments(s):
 
 
 def hygiene():
-    """No Axiom/Parameter/Admitted/... anywhere in the development (Variables are allowed
-    only inside Sections; we use none)."""
+    """No Axiom/Parameter/Admitted/... anywhere in the development.  Variable / Hypothesis /
+    Context are allowed only inside a Section (where they are discharged at End)."""
     bad = []
     for root, _, files in os.walk(os.path.join(COQ, "theories")):
         for f in files:
             if f.endswith(".v"):
                 src = strip_comments(open(os.path.join(root, f)).read())
+                sections = set(re.findall(r"\bSection\s+([A-Za-z0-9_']+)\s*\.", src))
                 for m in FORBIDDEN.finditer(src):
-                    bad.append("%s: %s" % (os.path.join(root, f), m.group(0)))
+                    w = m.group(0)
+                    if w in ("Variable", "Variables", "Hypothesis", "Hypotheses"):
+                        before = src[:m.start()]
+                        opened = len(re.findall(r"\bSection\s+[A-Za-z0-9_']+\s*\.", before))
+                        closed = sum(1 for n in re.findall(r"\bEnd\s+([A-Za-z0-9_']+)\s*\.", before) if n in sections)
+                        if opened > closed:
+                            continue
+                    bad.append("%s: %s" % (os.path.join(root, f), w))
     return bad
 
 
